@@ -244,6 +244,10 @@ func (o *objectGoArrayReflect) defineOwnPropertyIdx(idx valueInt, descr Property
 		}
 		val := descr.Value
 		if val == nil {
+			if i < o.fieldsValue.Len() {
+				// an existing element keeps its value
+				return true
+			}
 			val = _undefined
 		}
 		return o.putIdx(i, val, throw)
@@ -259,6 +263,10 @@ func (o *objectGoArrayReflect) defineOwnPropertyStr(name unistring.String, descr
 		}
 		val := descr.Value
 		if val == nil {
+			if idx < o.fieldsValue.Len() {
+				// an existing element keeps its value
+				return true
+			}
 			val = _undefined
 		}
 		return o.putIdx(idx, val, throw)
